@@ -53,11 +53,11 @@ CHECKS["C02"] = dict(engine="exsim", level="exploration", design_ref="3/C02",
     note=_EXSIM_NOTE)
 CHECKS["C04"] = dict(engine="exsim", level="exploration", design_ref="3/C04",
     technique=_EXSIM_TECH + "per-fill price/trigger oracle against the bar with the fill's timestamp; offline "
-              "completeness checker; exhaustive micro-scenarios over all weak orderings of O/H/L/C/limit/stop "
-              "(thorough)",
+              "completeness checker; exhaustive micro-scenarios over all 604 weak orderings of O/H/L/C/limit/stop "
+              "that form a valid bar x 4 order kinds x 2 sides (both tiers)",
     text="Every fill observed through order events is checked against its bar (price bounds per order type, trigger "
-         "rules); the thorough tier additionally enumerates all weak orderings of the six prices for every order kind "
-         "and side with infinite liquidity and ample funds, where completeness is decidable.",
+         "rules); both tiers additionally enumerate all weak orderings of the six prices for every order kind and "
+         "side with infinite liquidity and ample funds, where completeness is decidable.",
     note=_EXSIM_NOTE + " Tolerance: half a quote grid unit (one rounding).")
 CHECKS["C05"] = dict(engine="exsim", level="exploration", design_ref="3/C05",
     technique=_EXSIM_TECH + "per-order monotone state machine over polled states, listing == shadow set for every "
